@@ -20,6 +20,7 @@
 #define VF_INPUTS(X) X(int, fmt, ) X(int, pre, ) X(unsigned char, fail_at, ) X(unsigned char, mode, ) X(unsigned char, init, [N + 1]) \
     X(unsigned char, pp_ok, [VF_NPCALL]) X(unsigned char, pp_len, [VF_NPCALL]) X(unsigned char, pp_adv, [VF_NPCALL]) X(unsigned char, pp_txt, [VF_NPCALL][VF_PLEN])
 #include "vf.h"
+#include "vf_str.h"
 static void *hk_malloc(size_t n) { return vf_malloc(n); }
 static void hk_free(void *p) { vf_free(p); }
 #include "vf_mem.h"
